@@ -330,6 +330,9 @@ def _judge_case(d, obs=None, deep=True):
             ep = expected_p(st["p"])
             if not (close(ep, p) or (st["p"][0] == "zero" and abs(p) < 1e-9)):
                 bad.append(f"p_value {p} != 2*stdtr(count-1, -|t|) = {ep} on group {gl}")
+            elif st["p"][0] not in ("nan", "zero") and 1e-300 < ep < 1e-9 and not (p > 0 and abs(p / ep - 1) < 1e-3):
+                # highly significant groups: the p-value is a tail probability, accurate RELATIVELY (lower tail of the t distribution)
+                bad.append(f"p_value {p} != 2*stdtr(count-1, -|t|) = {ep} on group {gl} (relative)")
         # conservation
         if sum(r[2] for r in tab) != n:
             bad.append(f"counts sum to {sum(r[2] for r in tab)} != {n} rows")
@@ -647,6 +650,16 @@ def main():
                               names=list(names), w=None, functional="mean", level=0.5, feat=ft))
         consider(dict(y=[0.0, 1.0], models=[[float(j), 1.0] for j in range(11)], two_d=True, names=None, w=None,
                       functional="mean", level=0.5, feat=None))
+        # identification values with a large common offset and a small spread (dyadic, group sizes 4 / 8: every exact quantity
+        # is a float), and highly significant groups (tiny p-values)
+        big = 2.0 ** 28
+        for ft in (None, dict(ftype="str", values=["a", "a", "a", "a", "b", "b", "b", "b"], n_bins=3, method="quantile")):
+            consider(dict(y=[0.25, 0.75, 0.5, 1.0, 0.0, 0.25, 1.25, 0.5], models=[[big + v for v in (1.0, 0.25, 0.75, 0.5, 1.5, 0.25, 0.0, 1.25)]], two_d=False, w=None,
+                          functional="mean", level=0.5, feat=ft))
+            consider(dict(y=[0.0] * 8, models=[[10.0 + v for v in (0.25, -0.25, 0.5, -0.5, 0.125, -0.125, 0.0, 0.0)]], two_d=False, w=None,
+                          functional="mean", level=0.5, feat=ft))
+            consider(dict(y=[0.0] * 8, models=[[1000.0 + v for v in (0.25, -0.25, 0.5, -0.5, 0.125, -0.125, 0.0, 0.0)]], two_d=False, w=[1.0, 2.0, 1.0, 2.0, 1.0, 2.0, 1.0, 2.0],
+                          functional="expectile", level=0.25, feat=ft))
         rng = random.Random(seed)
         while tried < budget:
             consider(gen_case(rng, 12))
